@@ -58,8 +58,12 @@ def alternation(env):
         e = "".join(c.ev)
         if not e:
             continue
-        if not (e.startswith("r") and e.endswith("p") and "rr" not in e and "pp" not in e):
-            out.append(("C06.alternate", "context %r saw resume/pause sequence %r (must alternate, start with resume at entry, end with pause at exit)" % (c.cid, e)))
+        # resume at entry, then strict alternation; leaving the block (X) happens while resumed and is followed by exactly one
+        # pause and nothing else; a block that was never left (its task / generator was abandoned inside it) may end either way
+        import re
+        if not re.match(r"^r(pr)*Xp$" if "X" in e else r"^r(pr)*p?$", e):
+            out.append(("C06.alternate", "context %r saw the sequence %r of resume (r) / pause (p) / block exit (X): must start with a resume at entry, alternate, "
+                        "and end with the one pause of the exit" % (c.cid, e)))
             break
     return out
 
